@@ -140,6 +140,8 @@ impl BiStream {
     }
 
     pub async fn finish(&mut self) -> Result<()> {
+        // Frames may still be sitting in the framed writer's buffer
+        SinkExt::<Frame>::flush(&mut self.write).await?;
         self.write.finish().await.map_err(QuicError::WriteError)?;
         Ok(())
     }
